@@ -383,8 +383,11 @@ def close(a, b, rel=1e-9, abs_=0.0):
 def report(ctx, pt, sig, kind, measured, allowed, extra):
     what = (f"{pt.mech}({', '.join(f'{k}={v!r}' for k, v in pt.params.items())}): {kind} = {fmt(measured)} exceeds the allowed "
             f"{fmt(allowed)} with the calibrated parameter {pt.meas!r}; {extra}")
-    ctx.violation(sig, what, {"mech": pt.mech, "params": pt.params, "meas": pt.meas, "case": extra_json(extra),
-                              "kind": kind, "measured": fmt(measured), "allowed": fmt(allowed)})
+    n = ctx.counters.get("sig:" + sig, 0)
+    ctx.count("sig:" + sig)
+    if n < 5:       # the runner keeps 200 violations in all: repetitions must not crowd out a different signature
+        ctx.violation(sig, what, {"mech": pt.mech, "params": pt.params, "meas": pt.meas, "case": extra_json(extra),
+                                  "kind": kind, "measured": fmt(measured), "allowed": fmt(allowed)})
 
 
 def extra_json(e):
@@ -838,7 +841,13 @@ def ga_direct(ctx, pt, r, cases=None):
         H = cl.gaussian_hockey_stick(d(t), d(s), d(p["epsilon"]))
         ctx.count("divergences")
         if H > allowed:
-            report(ctx, pt, f"C02:{pt.mech}:hockey-stick", "hockey-stick", H, allowed, {"x": "0", "t": str(t)})
+            sig = f"C02:{pt.mech}:hockey-stick"
+            if pt.mech == "GaussianAnalytic":
+                # phi(-x) = (1 + erf(-x/sqrt 2))/2 carries an absolute rounding error of 2^-54 which the objective
+                # multiplies by e^eps: an excess explained by that is the cancellation defect, anything larger is not
+                if H - d(p["delta"]) <= 4 * cl.dexp(d(p["epsilon"])) * D(2) ** -53:
+                    sig = "C02:GaussianAnalytic:erf-cancellation"
+            report(ctx, pt, sig, "hockey-stick", H, allowed, {"x": "0", "t": str(t)})
             return
 
 
@@ -1105,4 +1114,15 @@ def _witness_midpoint(ctx):
                  f"midpoint at rtol 1e-6): H_e^50(M(0)||M(1)) = {fmt(H)} > delta")
 
 
-WITNESSES = {"C02:GaussianDiscrete:midpoint-nonprivate": _witness_midpoint}
+def _witness_erf(ctx):
+    p = {"epsilon": 34.94561054503816, "delta": 0.3637228042222831, "sensitivity": 0.5630391708285637}
+    pt = Point("GaussianAnalytic", p)
+    ga_measure(pt)
+    H = cl.gaussian_hockey_stick(d(p["sensitivity"]), d(pt.meas["sigma"]), d(p["epsilon"]))
+    bad = H > d(p["delta"]) * (1 + REL_DELTA) + ABS_DELTA
+    return bad, (f"GaussianAnalytic({p}) calibrates sigma={pt.meas['sigma']!r}: H_e^eps(M(0)||M(sens)) = {fmt(H)} > delta "
+                 f"(1 + erf(-x) cancels inside phi and is multiplied by e^eps)")
+
+
+WITNESSES = {"C02:GaussianDiscrete:midpoint-nonprivate": _witness_midpoint,
+             "C02:GaussianAnalytic:erf-cancellation": _witness_erf}
